@@ -145,6 +145,7 @@ static std::string run_op(Tbl &t, std::unique_ptr<LT> &lt, const OpSpec &o) {
       long save = AllocCtl::fail_at.exchange(0);
       long cnt = AllocCtl::n_allocs.load();
       Tbl src(8);
+      src.minimum_load_factor(0);
       for (uint64_t i = 0; i < o.a; ++i) src.insert(IKey(700000 + i), i);
       AllocCtl::n_allocs = cnt; AllocCtl::fail_at = save;
       t = src;
@@ -154,6 +155,7 @@ static std::string run_op(Tbl &t, std::unique_ptr<LT> &lt, const OpSpec &o) {
       long save = AllocCtl::fail_at.exchange(0);
       long cnt = AllocCtl::n_allocs.load();
       Tbl src(8);
+      src.minimum_load_factor(0);
       for (uint64_t i = 0; i < o.a; ++i) src.insert(IKey(700000 + i), i);
       AllocCtl::n_allocs = cnt; AllocCtl::fail_at = save;
       t = std::move(src);
@@ -204,9 +206,13 @@ static std::string trial(Tbl &orig, const OpSpec &o, long k, bool locked, const 
   if (c.size() != base.size()) return "size() " + std::to_string(c.size()) + " != number of pairs " + std::to_string(base.size());
   std::string pl = probe_locks(c);
   if (!pl.empty()) return pl;
-  // still usable
-  for (uint64_t x = 900000; x < 900012; ++x) { if (!c.insert(IKey(x), x)) return "table unusable after the failure (insert of a fresh key reports duplicate)"; }
-  for (uint64_t x = 900000; x < 900012; ++x) { IVal v; if (!c.find(IKey(x), v) || v.v != x) return "table unusable after the failure (fresh key not found)"; }
+  // still usable (an expansion refused by the table's own policy is not a failure of usability)
+  try {
+    for (uint64_t x = 900000; x < 900012; ++x) { if (!c.insert(IKey(x), x)) return "table unusable after the failure (insert of a fresh key reports duplicate)"; }
+    for (uint64_t x = 900000; x < 900012; ++x) { IVal v; if (!c.find(IKey(x), v) || v.v != x) return "table unusable after the failure (fresh key not found)"; }
+  } catch (libcuckoo::load_factor_too_low &) {
+  } catch (libcuckoo::maximum_hashpower_exceeded &) {
+  }
   for (auto &kv : base) { IVal v; if (!c.find(IKey(kv.first), v) || v.v != kv.second) return "key " + std::to_string(kv.first) + " lost after the failure"; }
   if (!R.errors.empty()) return "lifetime: " + R.errors[0];
   return "";
